@@ -39,7 +39,7 @@ Definition wt (x t : F) : F :=
   let b := fsub (cdf (fsub t xx)) (cdf (fsub (fneg t) xx)) in
   if fltb b feps then fone
   else
-    fadd (fdiv (fadd (fmul (fsub t xx) (pdf (fsub t xx)))
-                     (fmul (fadd t xx) (pdf (fsub (fneg t) xx)))) b)
-         (fmul (vt x t) (vt x t)).
+    fmin (fmax (fadd (fdiv (fadd (fmul (fsub t xx) (pdf (fsub t xx)))
+                                 (fmul (fadd t xx) (pdf (fsub (fneg t) xx)))) b)
+                     (fmul (vt x t) (vt x t))) fzero) fone.
 End Gauss.
